@@ -444,6 +444,12 @@ func (a *act) globalInit(g *ssa.Global, st *State) Val {
 
 func (a *act) havocAll(st *State) {
 	e := a.e
+	oldHeap := make(map[string]Term, len(st.heap))
+	for k, v := range st.heap {
+		oldHeap[k] = v
+	}
+	oldEpoch := st.epoch
+	defer a.keepPrivate(st, oldHeap, oldEpoch)
 	for _, name := range sortedKeys(e.cur.heapSorts) {
 		st.heap[name] = e.cur.log.fresh(name, e.cur.heapSorts[name])
 	}
